@@ -718,7 +718,7 @@ def run(run: core.Run) -> int:
         # exit status of the decompile command on malformed documents = outcome of the real functions
         for i in range(n_mal_cli):
             d, r = msub_flat[i], reads_flat[len(docs) + i]
-            if d.get("rc") is None:
+            if d.get("rc") is None or r.get("err") == "NoAnswer":
                 continue
             stats["malformed_cli"] += 1
             if "err" in r and (d["rc"] == 0 or d["stdout"].strip()):
